@@ -1489,6 +1489,18 @@ def c12c(F, R):
                     R.ok(key, detail="exempt: " + why)
                 else:
                     R.bad(key, f"{nm} mutates edges and no value analysis runs after it: value facts are stale with respect to the final graph", loc(n))
+    # the exits are stable: the last value analysis is followed by an exit cut that was checked to change nothing - a value
+    # analysis that runs after the last cut can make another exit ecall known, whose edges then stay in the finished graph
+    if "AvailableValuePass" in names:
+        lv = max(i for i, nm in enumerate(names) if nm == "AvailableValuePass")
+        cutters = [(i, nm, n_) for i, (nm, n_) in enumerate(seq) if i > lv and nm in mut_names and "Ecall" in nm]
+        any_cutter = any("Ecall" in nm for nm in names)
+        if not any_cutter:
+            pass
+        elif cutters and isinstance(cutters[0][2], dict) and cutters[0][2].get("__noop_at_exit__"):
+            R.ok("exits-stable", detail=f"the last AvailableValuePass is followed by {cutters[0][1]}, and the loop is only left when that cut nothing")
+        else:
+            R.bad("exits-stable", "the last value analysis is not followed by an exit cut that is checked to change nothing: cutting the edges after one exit ecall can make the number of the next one known; its edges then survive into the finished graph - which is not a fixed point of the pipeline (`Unknown ecall` / reachable code after an exit)", loc(seq[lv][1]) if isinstance(seq[lv][1], dict) and seq[lv][1].get("sp") else f["sp"])
     if names[-1] == "LivenessPass" and names.count("LivenessPass") == 1:
         R.ok("liveness-last", detail="LivenessPass runs once, after every other pass")
     else:
